@@ -49,6 +49,8 @@ def nb_tasks(cases, tag):
             continue
         b, l, r, e = nbs
         plan = [plan_item("cli", ("inline", None, None, True)), plan_item("tool", ("mergetool", None, None, True))]
+        if k % 4 == 1:      # the same merge with --log-level DEBUG (the merger then also prints diffs and decisions)
+            plan.append(plan_item("cli", ("inline", None, None, True), debug=True))
         info = {"owner": c["owner"], "act": c["act"], "ins": c["ins"]}
         tasks.append(("%s-%d" % (tag, k), b, l, r, plan, {"disjoint": True, "expected": enc(to_plain(e)), "_info": info}))
     return tasks, bad
